@@ -158,3 +158,14 @@ chk("C16", "exploration",
     "x86_64 host, clang 14; C++ mode only through its recorded finding.",
     "runtime monitoring: compile + symbol-set oracle and differential direct-vs-binding execution logs",
     "DESIGN.md §4 C16")
+
+chk("C05", "exploration",
+    "Generated headers of object-like macros from a typed expression grammar (all literal bases/suffixes, char and string literals with "
+    "escapes, floats incl. hex floats, unary/binary/ternary operators, casts, sizeof, references, #undef/redefinition, hostile bodies), "
+    "enums (negative, duplicate, > 32-bit, 64-bit unsigned, fixed underlying types, unnamed) and const variables of every scalar kind, "
+    "under the six enum styles and the macro-typing options. A clang-compiled C program prints class (_Generic), width, signedness and "
+    "value of every constant; a rustc-compiled program prints the same for every constant bindgen emitted, typed through trait "
+    "inference. Omitted macros are counted, never failed.",
+    "clang 14 (LP64 host) defines the value; my evaluator only keeps generated expressions free of undefined behaviour and classifies mismatches for known-finding signatures.",
+    "runtime monitoring: differential C<->Rust constant probes",
+    "DESIGN.md §4 C05")
